@@ -208,8 +208,14 @@ func c04Dispatch(r *Run, c *c04Ctx) {
 					if !isFieldLoadC(v, pkgStrategy, "Parameters", "ReplicaSetStatus") {
 						return false
 					}
+					// the Parameters object whose role is tested is the one handed to the strategy function
+					// (the parameter may live in a cell when a closure captures it)
 					root, _ := accessPath(unwrap(v))
-					return root == params
+					proot, ppath := accessPath(params)
+					if al, isCell := root.(*ssa.Alloc); isCell && spillOfC(al) == nil {
+						return false
+					}
+					return root == params || (len(ppath) == 0 && root == proot)
 				}, isConstStringVal(val)) {
 					guard = role
 				}
@@ -341,32 +347,39 @@ func c04Ignore(r *Run, c *c04Ctx) {
 			"when the replica set is the active one and a canary is recorded, the mapping function receives Status.Canary.Nodes as the nodes to hide", cl.ok, fmt.Sprintf("%d path(s); %s", cl.n, cl.detail))
 	}
 
-	// inside the mapping function: ignored nodes get no entry and their pods are not cleaned up
+	// inside the mapping function (and the helpers it uses): ignored nodes get no entry and their pods are not cleaned up
 	m := a.mapping
-	ff := computeFacts(m)
-	for _, b := range m.Blocks {
-		for _, in := range b.Instrs {
-			mu, ok := in.(*ssa.MapUpdate)
-			if !ok || mu.Map != a.nameMap {
-				continue
+	for _, sf := range a.scope {
+		var ff *FuncFacts
+		for _, b := range sf.Blocks {
+			for _, in := range b.Instrs {
+				mu, ok := in.(*ssa.MapUpdate)
+				if !ok || !a.isNameMap(mu.Map) {
+					continue
+				}
+				if ff == nil {
+					ff = computeFacts(sf)
+				}
+				fs := ff.At(b)
+				if c01LookupOK(ff.K, fs, a.isNameMap, mu.Key, true) {
+					continue
+				}
+				k := ff.K
+				key := mu.Key
+				isIgnored := c01IgnoreMatcher(a, func(v ssa.Value) bool { return sameValueC(k, v, key) })
+				okI := valueFactC(fs, false, isIgnored)
+				if !okI {
+					c.r2AllOK = false
+				}
+				r.Check("C04.R2", "new per-node entry not ignored", r.Prog.Pos(instrPos(mu)), shortFunc(sf), "a node of the ignore list gets no per-node entry", okI, "must-facts: "+descFactsC(fs))
 			}
-			fs := ff.At(b)
-			if c01LookupOK(ff.K, fs, a.nameMap, mu.Key, true) {
-				continue
-			}
-			isIgnored := c01IgnoreMatcher(m, ff.K, func(v ssa.Value) bool { return sameValueC(ff.K, v, mu.Key) })
-			okI := valueFactC(fs, false, isIgnored)
-			if !okI {
-				c.r2AllOK = false
-			}
-			r.Check("C04.R2", "new per-node entry not ignored", r.Prog.Pos(instrPos(mu)), shortFunc(m), "a node of the ignore list gets no per-node entry", okI, "must-facts: "+descFactsC(fs))
 		}
 	}
 	cl := c01PodLoop(r, a)
 	if cl == nil {
 		return
 	}
-	isIgnored := c01IgnoreMatcher(m, cl.k, cl.nodeNameOfPod)
+	isIgnored := c01IgnoreMatcher(a, cl.nodeNameOfPod)
 	n := 0
 	for ap := range cl.cleanApp {
 		if !cl.l.In[ap.Block()] {
@@ -379,7 +392,7 @@ func c04Ignore(r *Run, c *c04Ctx) {
 				return false
 			}
 			l, ok := e.Tuple.(*ssa.Lookup)
-			return ok && l.X == a.nameMap && cl.nodeNameOfPod(l.Index)
+			return ok && a.isNameMap(l.X) && cl.nodeNameOfPod(l.Index)
 		})
 		if !unmapped {
 			continue // clean-up of a pod of a mapped node: the node is not ignored (no entry otherwise)
@@ -499,18 +512,19 @@ func c04CanaryCandidates(r *Run, c *c04Ctx) {
 		r.Check("C04.R4", "Parameters.CanaryNodes", r.Prog.Pos(a.builder.Pos()), shortFunc(a.builder), "Parameters.CanaryNodes is filled from Status.Canary.Nodes", false, "no store found")
 	}
 	// node index keyed by the node's own name (so NodeByName[n] is the node named n)
-	m := a.mapping
-	k := newKeyer(m)
-	for _, b := range m.Blocks {
-		for _, in := range b.Instrs {
-			mu, ok := in.(*ssa.MapUpdate)
-			if !ok || mu.Map != a.nodeIndex {
-				continue
+	for _, m := range a.scope {
+		k := newKeyer(m)
+		for _, b := range m.Blocks {
+			for _, in := range b.Instrs {
+				mu, ok := in.(*ssa.MapUpdate)
+				if !ok || !a.isNodeIndex(mu.Map) {
+					continue
+				}
+				vroot, vpath := accessPath(unwrap(mu.Value))
+				kroot, kpath := accessPath(unwrap(mu.Key))
+				ok2 := (vroot == kroot || sameValueC(k, vroot, kroot)) && len(kpath) > len(vpath) && pathIsC(kpath[:len(vpath)], vpath...) && pathIsMetaC(kpath[len(vpath):], "Node", "Name")
+				r.Check("C04.R4", "node index entry", r.Prog.Pos(instrPos(mu)), shortFunc(m), "NodeByName maps a name to the item of the node with that name", ok2, "key "+descValueC(mu.Key)+" value "+descValueC(mu.Value))
 			}
-			vroot, vpath := accessPath(unwrap(mu.Value))
-			kroot, kpath := accessPath(unwrap(mu.Key))
-			ok2 := (vroot == kroot || sameValueC(k, vroot, kroot)) && len(kpath) > len(vpath) && pathIsC(kpath[:len(vpath)], vpath...) && pathIsMetaC(kpath[len(vpath):], "Node", "Name")
-			r.Check("C04.R4", "node index entry", r.Prog.Pos(instrPos(mu)), shortFunc(m), "NodeByName maps a name to the item of the node with that name", ok2, "key "+descValueC(mu.Key)+" value "+descValueC(mu.Value))
 		}
 	}
 	// candidates of the functions dispatched under role == canary
@@ -565,7 +579,7 @@ func c04Labels(r *Run, c *c04Ctx) {
 			if keyArg < 0 {
 				continue
 			}
-			kind := c04LabelEffect(cal, cal.Params[keyArg])
+			kind := c04LabelEffect(r.Prog, cal, cal.Params[keyArg])
 			if kind == "" {
 				continue
 			}
@@ -717,9 +731,11 @@ func c04Labels(r *Run, c *c04Ctx) {
 
 // c04LabelEffect classifies a helper by what it does with label key parameter kp on a pod it then
 // patches/updates: "add" (Labels[kp] = v), "remove" (delete(Labels, kp)), "" otherwise.
-func c04LabelEffect(fn *ssa.Function, kp *ssa.Parameter) string {
+func c04LabelEffect(p *Prog, fn *ssa.Function, kp *ssa.Parameter) string {
+	// the helper (or a function / closure it reaches) patches or updates a pod
+	reach := p.reachableFuncs(fn)
 	writes := false
-	for _, e := range effectsOf(map[*ssa.Function]bool{fn: true}) {
+	for _, e := range effectsOf(reach) {
 		if (e.Verb == "Patch" || e.Verb == "Update") && e.Kind == pkgCoreV1+".Pod" {
 			writes = true
 		}
@@ -727,17 +743,23 @@ func c04LabelEffect(fn *ssa.Function, kp *ssa.Parameter) string {
 	if !writes {
 		return ""
 	}
+	// the label write itself is in the helper or in a closure of it (where the key is the captured parameter)
 	kind := ""
-	for _, b := range fn.Blocks {
-		for _, in := range b.Instrs {
-			switch x := in.(type) {
-			case *ssa.MapUpdate:
-				if x.Key == ssa.Value(kp) && hasPathSuffix(x.Map, "Labels") {
-					kind = "add"
-				}
-			case *ssa.Call:
-				if builtinCallC(x, "delete") != nil && x.Call.Args[1] == ssa.Value(kp) && hasPathSuffix(x.Call.Args[0], "Labels") {
-					kind = "remove"
+	for f := range reach {
+		if f != fn && f.Parent() != fn {
+			continue
+		}
+		for _, b := range f.Blocks {
+			for _, in := range b.Instrs {
+				switch x := in.(type) {
+				case *ssa.MapUpdate:
+					if denotesParamC(x.Key, kp) && hasPathSuffix(x.Map, "Labels") {
+						kind = "add"
+					}
+				case *ssa.Call:
+					if builtinCallC(x, "delete") != nil && denotesParamC(x.Call.Args[1], kp) && hasPathSuffix(x.Call.Args[0], "Labels") {
+						kind = "remove"
+					}
 				}
 			}
 		}
